@@ -45,6 +45,11 @@ def ascii (s : String) : Bytes := s.toList.map fun c => UInt8.ofNat c.toNat
 def placeholder : Bytes := [120, 120, 120, 120, 120]
 /-- `data:` -/
 def dataPrefix : Bytes := [100, 97, 116, 97, 58]
+/-- readurl.go `IsDataURI` (F54): the value is an inline value when its first five bytes spell `data:` in
+    ANY case - `strings.EqualFold(s[:5], "data:")`; URI schemes are case-insensitive (RFC 3986 3.1).
+    Before the repair the test was `strings.HasPrefix(s, "data:")` (`dataPrefix.isPrefixOf s`) and a
+    value written `DATA:…` was taken for a file name. -/
+def isDataURI (s : Bytes) : Bool := (s.take 5).map toLower == dataPrefix
 /-- `://` -/
 def schemeSep : Bytes := [58, 47, 47]
 
@@ -227,7 +232,7 @@ def redactHostPortUser (c : HostPortUser) : Bytes :=
 
 /-- bind/redact.go `RedactBase64` -/
 def redactBase64 (s : Bytes) : Bytes :=
-  if dataPrefix.isPrefixOf s then dataPrefix ++ placeholder else s
+  if isDataURI s then dataPrefix ++ placeholder else s
 
 /-! ### the flag table and `DescribeFlags` -/
 
@@ -377,7 +382,7 @@ def FilePub.shown : FilePub → Bytes
   | .data => dataPrefix ++ placeholder
 
 def FilePub.ok : FilePub → Prop
-  | .path p => dataPrefix.isPrefixOf p = false
+  | .path p => isDataURI p = false
   | .data => True
 
 /-- the non-secret part of a configuration -/
@@ -485,7 +490,7 @@ def upstreamLogURL (u : ProxyURL) (cred : Option Userinfo) : Bytes :=
 /-- tls.go `redactDataURI`: the payload of an inline `data:` value is replaced by the placeholder,
     any other value (a path) is printed as it is -/
 def redactDataURI (s : Bytes) : Bytes :=
-  if dataPrefix.isPrefixOf s then dataPrefix ++ placeholder else s
+  if isDataURI s then dataPrefix ++ placeholder else s
 
 /-- the `cert` and `key` attributes of the debug record "loading TLS certificate" -/
 structure TLSLoadAttrs where
@@ -764,8 +769,8 @@ def pacProxyKindAfterMerge (t : List HostPortUser) (result target : Bytes) : Pac
 
 /-! ### loading an inline value: the error texts of `ReadFileOrBase64`
 
-  readurl.go `ReadFileOrBase64` / `readData`: a value that begins with the five bytes `data:` is an
-  inline value - the prefix is SLICED off (`name[5:]`, no URL parsing), a leading `//` is trimmed,
+  readurl.go `ReadFileOrBase64` / `readData`: a value whose first five bytes spell `data:` (in any case:
+  `IsDataURI`, F54) is an inline value - the prefix is SLICED off (`name[5:]`, no URL parsing), a leading `//` is trimmed,
   what precedes the first comma must be `base64`, the rest goes to `base64.StdEncoding.DecodeString`;
   any other value is a file name (`os.ReadFile`, outside the model).  The decoder is a parameter
   (`Decoder`: the data, or the offset of `base64.CorruptInputError`); the theorems hold for every
@@ -820,7 +825,7 @@ def readData (dec : Decoder) (opq : Bytes) : Loaded :=
 
 /-- readurl.go `ReadFileOrBase64` -/
 def readFileOrBase64 (dec : Decoder) (name : Bytes) : Loaded :=
-  if dataPrefix.isPrefixOf name then readData dec (name.drop 5) else .file name
+  if isDataURI name then readData dec (name.drop 5) else .file name
 
 /-- the two ways an inline value is written: `data:base64,<q>` and `data:<q>` -/
 def inlineRaw (b64 : Bool) (q : Bytes) : Bytes :=
@@ -853,6 +858,101 @@ def readFileOrBase64Parsed (dec : Decoder) (name : Bytes) : Loaded :=
   if dataPrefix.isPrefixOf name then
     if name.any isCtl then .error (urlParseErrorText name) else readData dec (name.drop 5)
   else .file name
+
+/-! ### request log: the record of an exchange under a mode, and where its builder comes from
+
+  httplog/httplog.go `structuredLogFunc`, httplog/slog.go `structuredLogBuilder`: every call of a logger
+  declares a builder of its own (`var b structuredLogBuilder`), fills it with the `With*` methods its
+  mode prescribes and hands it to the log function; `request.String()` / `response.String()` (and their
+  JSON forms) print every NON-EMPTY field.  The `With*` methods overwrite only the fields of their own
+  group, so what a record carries besides them is whatever the builder held before - which is nothing,
+  as long as the builder is new.  Header fields, transfer encodings, trailers and the like (all that
+  `WithHeaders` copies) are one field here, the bodies another. -/
+
+/-- httplog `Mode` -/
+inductive LogMode where
+  | none | shortURL | url | headers | body | errors
+  deriving DecidableEq, Repr
+
+/-- what a logger is given about one exchange (`middleware.LogEntry`; the two URL forms are
+    `buildShortURL` and `URL.Redacted()`) -/
+structure Exchange where
+  method : Bytes
+  shortURL : Bytes
+  url : Bytes
+  status : Nat
+  reqHeaders : Bytes
+  resHeaders : Bytes
+  reqBody : Bytes
+  resBody : Bytes
+  duration : Bytes
+  id : Bytes
+  deriving DecidableEq, Repr
+
+/-- `structuredLogBuilder`: the fields a record prints -/
+structure Builder where
+  method : Bytes
+  url : Bytes
+  status : Nat
+  duration : Bytes
+  id : Bytes
+  reqHeaders : Bytes
+  resHeaders : Bytes
+  reqBody : Bytes
+  resBody : Bytes
+  deriving DecidableEq, Repr
+
+/-- `var b structuredLogBuilder` -/
+def Builder.zero : Builder := ⟨[], [], 0, [], [], [], [], [], []⟩
+
+/-- `initBasicFields` -/
+def Builder.withBasic (b : Builder) (e : Exchange) (u : Bytes) : Builder :=
+  { b with method := e.method, url := u, status := e.status, duration := e.duration, id := e.id }
+/-- `WithHeaders` -/
+def Builder.withHeaders (b : Builder) (e : Exchange) : Builder :=
+  { b with reqHeaders := e.reqHeaders, resHeaders := e.resHeaders }
+/-- `WithBody` -/
+def Builder.withBody (b : Builder) (e : Exchange) : Builder :=
+  { b with reqBody := e.reqBody, resBody := e.resBody }
+
+/-- `structuredLogFunc`: the record the logger of a mode writes for an exchange when it starts from
+    builder `b` (`none` = it writes nothing and touches no builder) -/
+def fill (m : LogMode) (b : Builder) (e : Exchange) : Option Builder :=
+  match m with
+  | .none => none
+  | .shortURL => some (b.withBasic e e.shortURL)
+  | .url => some (b.withBasic e e.url)
+  | .headers => some ((b.withBasic e e.shortURL).withHeaders e)
+  | .body => some (((b.withBasic e e.shortURL).withHeaders e).withBody e)
+  | .errors => if e.status < 500 then none else some ((b.withBasic e e.shortURL).withHeaders e)
+
+/-- the record of an exchange under a mode, from a new builder: a function of the module's mode and of
+    the exchange itself -/
+def logRecord (m : LogMode) (e : Exchange) : Option Builder := fill m Builder.zero e
+
+/-- where builders come from: `reset` is what is done to a used builder before the next logger call
+    (of any module) starts from it -/
+structure Recycling where
+  reset : Builder → Builder
+
+/-- the code: nothing is shared between two calls - every call starts from a new builder -/
+def noRecycling : Recycling := ⟨fun _ => Builder.zero⟩
+
+/-- NOT the code - the mistake a new builder per call excludes: builders go through a pool shared by
+    all loggers and only the (possibly large) bodies are cleared when one is returned -/
+def bodyOnlyReset : Recycling := ⟨fun b => { b with reqBody := [], resBody := [] }⟩
+
+/-- one logger call that is handed a used builder with content `prev` (any earlier exchange of any module) -/
+def emitted (r : Recycling) (prev : Builder) (m : LogMode) (e : Exchange) : Option Builder :=
+  fill m (r.reset prev) e
+
+/-- a history of logger calls (any interleaving of the modules' loggers) with the builder pool as the
+    state: the content of the builder that is handed out next -/
+def runLog (r : Recycling) : Builder → List (LogMode × Exchange) → List (Option Builder)
+  | _, [] => []
+  | st, (m, e) :: rest =>
+    let out := emitted r st m e
+    out :: runLog r (out.getD st) rest
 
 /-- decidable infix test used by the driver (`bytes.Contains`) -/
 def isInfix (s : Bytes) : Bytes → Bool
